@@ -14,8 +14,8 @@ import (
 	"os"
 	"path/filepath"
 	"runtime"
+	"sort"
 	"strings"
-	"testing/iotest"
 	"time"
 
 	"github.com/libsv/go-bt/v2"
@@ -56,30 +56,9 @@ func measure(f func()) uint64 {
 	return m2.TotalAlloc - m1.TotalAlloc
 }
 
-// chunkReader hands out the data a few bytes at a time (1,2,..,7,1,..), never more
-type chunkReader struct {
-	b []byte
-	k int
-}
-
-func (r *chunkReader) Read(p []byte) (int, error) {
-	if len(r.b) == 0 {
-		return 0, io.EOF
-	}
-	r.k = r.k%7 + 1
-	n := r.k
-	if n > len(p) {
-		n = len(p)
-	}
-	if n > len(r.b) {
-		n = len(r.b)
-	}
-	copy(p, r.b[:n])
-	r.b = r.b[n:]
-	return n, nil
-}
-
 type readFromer func(r io.Reader) (int64, error)
+
+var remeasured int
 
 func handle(line string) string {
 	f := strings.SplitN(line, " ", 3)
@@ -124,9 +103,17 @@ func doDecode(entry string, b []byte, rp *reply, viol func(site, what string)) {
 		ok   bool
 		used int64
 	}
-	// every decode runs three times and the smallest allocation is reported: the decoders are
-	// deterministic, one-off runtime allocations (a GC cycle starting its workers, a sync.Pool
-	// refill) are not
+	// the plain *bytes.Reader run is the reference: it runs three times and the smallest allocation is reported
+	// (the decoders are deterministic; one-off runtime allocations - a GC cycle starting its workers, a sync.Pool
+	// refill - are not)
+	check := func(name string, r res, al uint64) {
+		if r.used > int64(len(b)) || r.used < 0 {
+			viol(api+"/consumed-gt-supplied", fmt.Sprintf("%s: reports %d bytes read of %d supplied", name, r.used, len(b)))
+		}
+		if al > allocBound(len(b)) {
+			viol(api+"/alloc-not-linear", fmt.Sprintf("%s: allocated %d bytes for %d bytes of input (bound %d)", name, al, len(b), allocBound(len(b))))
+		}
+	}
 	run := func(name string, mkr func() io.Reader) (res, uint64, bool) {
 		var n int64
 		var err error
@@ -144,31 +131,80 @@ func doDecode(entry string, b []byte, rp *reply, viol func(site, what string)) {
 			viol(api+"/panic", name+": "+msg)
 			return res{}, 0, false
 		}
-		if n > int64(len(b)) || n < 0 {
-			viol(api+"/consumed-gt-supplied", fmt.Sprintf("%s: reports %d bytes read of %d supplied", name, n, len(b)))
-		}
-		if al > allocBound(len(b)) {
-			viol(api+"/alloc-not-linear", fmt.Sprintf("%s: allocated %d bytes for %d bytes of input (bound %d)", name, al, len(b), allocBound(len(b))))
-		}
+		check(name, res{err == nil, n}, al)
 		return res{err == nil, n}, al, true
 	}
-	base, al, okRun := run("bytes.Reader", func() io.Reader { return bytes.NewReader(b) })
+	base, al, okRun := run("*bytes.Reader", func() io.Reader { return bytes.NewReader(b) })
 	if !okRun {
 		return
 	}
 	rp.OK, rp.Used, rp.Alloc = base.ok, base.used, al
-	for _, v := range []struct {
-		name string
-		r    func() io.Reader
-	}{
-		{"iotest.OneByteReader", func() io.Reader { return iotest.OneByteReader(bytes.NewReader(b)) }},
-		{"chunked reader", func() io.Reader { return &chunkReader{b: b} }},
-		{"iotest.DataErrReader", func() io.Reader { return iotest.DataErrReader(bytes.NewReader(b)) }},
-		{"iotest.HalfReader", func() io.Reader { return iotest.HalfReader(bytes.NewReader(b)) }},
-	} {
-		got, _, ok := run(v.name, v.r)
-		if ok && got != base {
-			viol(api+"/reader-dependence", fmt.Sprintf("%s: ok=%v used=%d, bytes.Reader: ok=%v used=%d", v.name, got.ok, got.used, base.ok, base.used))
+	// every other reader: decoders and readers are built first, then all the runs follow each other inside ONE
+	// measured window (runtime.ReadMemStats stops the world: it is the expensive part of a case). The decoders are
+	// deterministic and must not care about the reader's type: the window's total is as many times what
+	// *bytes.Reader needed. When it is more (by 512 bytes in all), every reader is measured again on its own
+	// (smallest of three runs), checked against the bound, and the largest figure is what the model comparison gets.
+	vs := variantReaders(b)
+	rfs := make([]readFromer, len(vs))
+	rds := make([]io.Reader, len(vs))
+	for i, v := range vs {
+		rfs[i], rds[i] = mk(), v.mk()
+	}
+	results := make([]res, len(vs))
+	panicked := make([]string, len(vs))
+	// (nothing in the window but the decoders allocates: the closures exist before it starts)
+	idx := 0
+	runRest := func() {
+		for ; idx < len(vs); idx++ {
+			n, err := rfs[idx](rds[idx])
+			results[idx] = res{err == nil, n}
+		}
+	}
+	total := measure(func() {
+		for idx < len(vs) {
+			if p, msg := common.Safely(runRest); p {
+				panicked[idx] = "panic: " + msg
+				idx++
+			}
+		}
+	})
+	remeasure := total > uint64(len(vs))*al+512
+	for i, v := range vs {
+		if panicked[i] != "" {
+			viol(api+"/panic", v.name+": "+panicked[i])
+			continue
+		}
+		if remeasure {
+			if _, a, ok := run(v.name, v.mk); ok && a > rp.Alloc {
+				rp.Alloc = a
+			}
+		} else {
+			check(v.name, results[i], 0)
+		}
+		if results[i] != base {
+			viol(api+"/reader-dependence", fmt.Sprintf("%s: ok=%v used=%d, *bytes.Reader: ok=%v used=%d", v.name, results[i].ok, results[i].used, base.ok, base.used))
+		}
+	}
+	if remeasure {
+		remeasured++
+	}
+	// a limit BELOW the data: the input is the first N bytes, nothing else may be consumed or reported
+	if half := len(b) / 2; half > 0 {
+		var got, want res
+		if p, msg := common.Safely(func() {
+			n, err := mk()(io.LimitReader(bytes.NewReader(b), int64(half)))
+			got = res{err == nil, n}
+			n, err = mk()(bytes.NewReader(b[:half]))
+			want = res{err == nil, n}
+		}); p {
+			viol(api+"/panic", "*io.LimitedReader(N=len/2): "+msg)
+		} else {
+			if got.used > int64(half) {
+				viol(api+"/consumed-gt-supplied", fmt.Sprintf("*io.LimitedReader(N=len/2): reports %d bytes read of %d supplied", got.used, half))
+			}
+			if got != want {
+				viol(api+"/reader-dependence", fmt.Sprintf("*io.LimitedReader(N=%d): ok=%v used=%d, *bytes.Reader over the first %d bytes: ok=%v used=%d", half, got.ok, got.used, half, want.ok, want.used))
+			}
 		}
 	}
 	if entry == "tx" {
@@ -323,6 +359,13 @@ type req struct {
 	class string // generator class, for the distribution
 	b     []byte // bytes or document
 	coq   string // J: the Coq struct term ("" = encoding/json-level case, Go only)
+	// structured families (many items really present): Go side only above the size the model is evaluated on;
+	// what the generator built, for the reports (the hex of a large input is truncated there); family and
+	// item count, for the growth predicate
+	goOnly bool
+	desc   string
+	fam    string
+	n      int
 }
 
 var reqs []req
@@ -334,7 +377,17 @@ func dec(entry, class string, b []byte) {
 		return
 	}
 	seenReq[k] = true
-	reqs = append(reqs, req{"D", entry, class, append([]byte{}, b...), ""})
+	reqs = append(reqs, req{kind: "D", entry: entry, class: class, b: append([]byte{}, b...)})
+}
+
+// decItems: a decode request of a structured family with n items really present
+func decItems(entry, class, fam string, n int, desc string, goOnly bool, b []byte) {
+	k := "D" + entry + string(b)
+	if seenReq[k] {
+		return
+	}
+	seenReq[k] = true
+	reqs = append(reqs, req{kind: "D", entry: entry, class: class, b: b, goOnly: goOnly, desc: desc, fam: fam, n: n})
 }
 func jdoc(entry, class string, d jsondoc.Doc) {
 	k := "J" + entry + d.JSON
@@ -342,7 +395,7 @@ func jdoc(entry, class string, d jsondoc.Doc) {
 		return
 	}
 	seenReq[k] = true
-	reqs = append(reqs, req{"J", entry, class, []byte(d.JSON), d.Coq})
+	reqs = append(reqs, req{kind: "J", entry: entry, class: class, b: []byte(d.JSON), coq: d.Coq})
 }
 
 var coqEntry = map[string]string{"tx": "ETx", "txs": "ETxs", "in": "EIn", "inx": "EInExt", "out": "EOut"}
@@ -357,6 +410,15 @@ func runReqs() {
 		}
 	}
 	replies, crashed, msgs := common.Isolated(lines, 30*time.Second)
+	// a request that ran into the per-request timeout is given one more try on its own, with four times the time: a
+	// decoder that loops still times out, a child that was merely starved (a loaded machine) does not count
+	for i := range lines {
+		if crashed[i] && msgs[i] == "timeout" {
+			r2, c2, m2 := common.Isolated(lines[i:i+1], 120*time.Second)
+			replies[i], crashed[i], msgs[i] = r2[0], c2[0], m2[0]
+			c.Tally("retried-after-timeout")
+		}
+	}
 	maxRatio := 0.0
 	for i, q := range reqs {
 		in := map[string]string{"entry": q.entry}
@@ -364,6 +426,9 @@ func runReqs() {
 			in["input"] = trunc(common.Hex(q.b))
 		} else {
 			in["doc"] = trunc(string(q.b))
+		}
+		if q.desc != "" {
+			in["generator"] = q.desc
 		}
 		twin := map[string]interface{}{"kind": q.kind + "/" + q.entry + "/" + q.class, "input": in}
 		key := q.kind + q.entry + string(q.b)
@@ -383,7 +448,13 @@ func runReqs() {
 			panic(fmt.Sprintf("bad child reply %q: %v", replies[i], err))
 		}
 		for _, v := range rp.Viol {
+			if m, ok := v.Input.(map[string]interface{}); ok && q.desc != "" {
+				m["generator"] = q.desc
+			}
 			c.Violate(v.Site, v.What, v.Input)
+		}
+		if q.fam != "" {
+			grown[q.fam] = append(grown[q.fam], growth{q.n, len(q.b), rp.Alloc, rp.OK, apiName(q.entry), in})
 		}
 		verdict := map[bool]string{true: "ok", false: "err"}[rp.OK]
 		if len(rp.Viol) > 0 {
@@ -392,7 +463,7 @@ func runReqs() {
 		c.Tally(q.kind + "/" + q.entry + "/" + q.class + "/" + verdict)
 		twin["ok"], twin["used"], twin["alloc"] = rp.OK, rp.Used, rp.Alloc
 		coq := ""
-		if q.kind == "D" && len(q.b) > 400000 {
+		if q.kind == "D" && (len(q.b) > 400000 || q.goOnly) {
 			// Go side only
 		} else if q.kind == "D" {
 			coq = fmt.Sprintf("CDec %s %s %s %d %s %d", coqEntry[q.entry], common.CoqBytes(q.b), common.CoqBool(rp.OK), rp.Used, common.CoqBool(rp.FB), rp.Alloc)
@@ -408,6 +479,49 @@ func runReqs() {
 		c.Case(coq, twin, key, nontrivial)
 	}
 	c.Stats.Extra["max_measured_alloc_over_bound"] = maxRatio
+	checkGrowth()
+}
+
+// growth: what decoding a well-formed input with n items really present allocated. "Proportional to the size of
+// the input": within a family (same item, same framing) k times the items may cost about k times the memory - an
+// allocation that grows like the square of the item count (a slice regrown by a fixed step, a buffer copied per
+// item) multiplies by k*k. Twice the items must stay below three times the allocation (plus a constant for the
+// fixed part); measured at sizes where the fixed part does not matter.
+type growth struct {
+	n, size int
+	alloc   uint64
+	ok      bool
+	api     string
+	in      map[string]string
+}
+
+var grown = map[string][]growth{}
+
+func checkGrowth() {
+	fams := make([]string, 0, len(grown))
+	for f := range grown {
+		fams = append(fams, f)
+	}
+	sort.Strings(fams)
+	worst := 0.0
+	for _, f := range fams {
+		g := grown[f]
+		for _, a := range g {
+			for _, b := range g {
+				if !a.ok || !b.ok || b.n != 2*a.n || a.alloc == 0 {
+					continue
+				}
+				if r := float64(b.alloc) / float64(a.alloc); r > worst {
+					worst = r
+				}
+				if b.alloc > 3*a.alloc+16384 {
+					c.Violate(b.api+"/alloc-superlinear", fmt.Sprintf("%s: %d items (%d bytes of input) allocate %d bytes, %d items (%d bytes) allocate %d bytes: twice the input costs %.2f times the memory (allowed: 3)",
+						f, a.n, a.size, a.alloc, b.n, b.size, b.alloc, float64(b.alloc)/float64(a.alloc)), b.in)
+				}
+			}
+		}
+	}
+	c.Stats.Extra["max_alloc_growth_for_doubled_item_count"] = worst
 }
 
 func jsonCase(q req, rp reply) string {
@@ -582,6 +696,105 @@ func bigScriptTx(l int, supplied int, fill byte) []byte {
 	return append(b, 0xff, 0xff, 0xff, 0xff, 0, 0, 0, 0, 0)
 }
 
+// ---------- many small items really present ----------
+
+// itemsTx: a well-formed transaction with nIn inputs and nOut outputs that are all there. plain: every item is all
+// zero bytes (41 per input, 50 in the extended format, 9 per output: the Coq literal of thousands of items is a
+// few tokens); otherwise items differ (index in the outpoint / amount, a one-byte script).
+func itemsTx(nIn, nOut int, ext, plain bool) []byte {
+	var b []byte
+	ver := byte(1)
+	if plain {
+		ver = 0
+	}
+	b = append(b, ver, 0, 0, 0)
+	if ext {
+		b = append(b, 0, 0, 0, 0, 0, 0xef)
+	}
+	b = append(b, bt.VarInt(uint64(nIn)).Bytes()...)
+	for i := 0; i < nIn; i++ {
+		it := make([]byte, 41)
+		if !plain {
+			binary.LittleEndian.PutUint32(it[0:], uint32(i)+1)
+			binary.LittleEndian.PutUint32(it[32:], uint32(i))
+			it = append(it[:36], 1, 0x51, 0xff, 0xff, 0xff, 0xff)
+		}
+		b = append(b, it...)
+		if ext {
+			tail := make([]byte, 9)
+			if !plain {
+				binary.LittleEndian.PutUint64(tail, uint64(i)+1)
+				tail = append(tail[:8], 1, 0x52)
+			}
+			b = append(b, tail...)
+		}
+	}
+	b = append(b, bt.VarInt(uint64(nOut)).Bytes()...)
+	for i := 0; i < nOut; i++ {
+		it := make([]byte, 9)
+		if !plain {
+			binary.LittleEndian.PutUint64(it, uint64(i))
+			it = append(it[:8], 1, 0x51)
+		}
+		b = append(b, it...)
+	}
+	return append(b, 0, 0, 0, 0)
+}
+
+// itemsTxs: a counted list of n transactions that are all there: plain = the 10-byte transaction without inputs
+// and outputs (all zero), otherwise a 1-in/1-out transaction
+func itemsTxs(n int, plain bool) []byte {
+	b := append([]byte{}, bt.VarInt(uint64(n)).Bytes()...)
+	one := make([]byte, 10)
+	if !plain {
+		one = itemsTx(1, 1, false, false)
+	}
+	for i := 0; i < n; i++ {
+		b = append(b, one...)
+	}
+	return b
+}
+
+func manyItems(big bool) {
+	type fam struct {
+		entry, name string
+		build       func(n int) []byte
+		coqN, goN   int // item counts n, 2n evaluated on the model too / Go side only
+	}
+	fams := []fam{
+		{"tx", "outputs of 9 zero bytes behind one input", func(n int) []byte { return itemsTx(1, n, false, true) }, 300, 20000},
+		{"tx", "10-byte outputs (amount i, script 51) behind one input", func(n int) []byte { return itemsTx(1, n, false, false) }, 100, 5000},
+		{"tx", "inputs of 41 zero bytes, no output", func(n int) []byte { return itemsTx(n, 0, false, true) }, 150, 3000},
+		{"tx", "42-byte inputs (outpoint i, script 51) and as many 10-byte outputs", func(n int) []byte { return itemsTx(n, n, false, false) }, 50, 2000},
+		{"tx", "extended format: inputs of 50 zero bytes, one output", func(n int) []byte { return itemsTx(n, 1, true, true) }, 150, 3000},
+		{"tx", "extended format: 52-byte inputs (previous amount i+1, previous script 52)", func(n int) []byte { return itemsTx(n, 1, true, false) }, 50, 2000},
+		{"txs", "list of 10-byte transactions (no input, no output)", func(n int) []byte { return itemsTxs(n, true) }, 300, 5000},
+		{"txs", "list of 1-in/1-out transactions", func(n int) []byte { return itemsTxs(n, false) }, 50, 2000},
+	}
+	for _, f := range fams {
+		sizes := []struct {
+			n      int
+			goOnly bool
+		}{{f.coqN, false}, {2 * f.coqN, false}, {f.goN, true}, {2 * f.goN, true}}
+		if big {
+			sizes = append(sizes, struct {
+				n      int
+				goOnly bool
+			}{4 * f.goN, true})
+		}
+		for _, sz := range sizes {
+			b := f.build(sz.n)
+			desc := fmt.Sprintf("%s: %d x %s, all present (%d bytes)", apiName(f.entry), sz.n, f.name, len(b))
+			decItems(f.entry, "many-items", f.entry+": "+f.name, sz.n, desc, sz.goOnly, b)
+			if !sz.goOnly {
+				// the same with the data ending inside the last item / one item short
+				decItems(f.entry, "many-items-short", "", 0, desc+", cut 6 bytes before the end", false, b[:len(b)-6])
+				decItems(f.entry, "many-items-short", "", 0, desc+", cut 60 bytes before the end", false, b[:len(b)-60])
+			}
+		}
+	}
+}
+
 func main() {
 	c = common.Parse("C09")
 	if c.Mode == "child" {
@@ -712,12 +925,15 @@ func main() {
 		dec("tx", "chunked-script-large-short", bigScriptTx(l, l-1, 0x51))
 	}
 
+	// 4b. well-formed inputs with many small items really present: allocation per input byte and its growth
+	manyItems(big)
+
 	// 5. JSON documents
 	for _, d := range jsondoc.All(r, big, lastStd) {
 		jdoc(d.Entry, d.Class, d)
 	}
 
 	runReqs()
-	c.Stats.Rule = "binary: regression corpus; random bytes (bare and behind a plausible header) into every entry point; every truncation offset and every single-bit flip of valid std+extended transactions, lists, inputs, outputs; a 1-in/1-out template with each count/length varint replaced by {2^16,2^31,2^32,2^40,2^63,2^64-1, and counts whose product with an element size of 9/33/37/41/45/149 (or 8/32/36/40) bytes wraps to a small number} (9-byte and shortest encodings; rest of the template / nothing / 40 filler bytes following; lengths 2^20..2^64-1 with 4097 / 5000 / 9000 bytes present) and by every truncated varint (ff+0..7, fe+0..3, fd+0..1 bytes); script lengths around the 4096-byte chunking fully/partly supplied; scripts of 1 MiB and 1.5 MiB fully supplied and one byte short (Go side only). Each input is decoded through bytes.Reader, iotest.OneByteReader, a 1..7-byte chunk reader, DataErrReader and HalfReader (results must agree), plus NewTxFromStream/NewTxFromBytes for transactions. JSON: documents for *bt.Tx, tx.NodeJSON(), txs.NodeJSON(), output.NodeJSON(), *bt.UTXO, utxo.NodeJSON() with each optional object missing/null/mistyped, bad/odd hex, one- and two-character hex strings, 0x prefixes, null list elements, hostile tx hex. distinct = distinct (entry point, input); non-trivial = binary inputs on which the decoder consumed at least one byte, JSON documents that encoding/json passes on to the library code"
+	c.Stats.Rule = "binary: regression corpus; random bytes (bare and behind a plausible header) into every entry point; every truncation offset and every single-bit flip of valid std+extended transactions, lists, inputs, outputs; a 1-in/1-out template with each count/length varint replaced by {2^16,2^31,2^32,2^40,2^63,2^64-1, and counts whose product with an element size of 9/33/37/41/45/149 (or 8/32/36/40) bytes wraps to a small number} (9-byte and shortest encodings; rest of the template / nothing / 40 filler bytes following; lengths 2^20..2^64-1 with 4097 / 5000 / 9000 bytes present) and by every truncated varint (ff+0..7, fe+0..3, fd+0..1 bytes); script lengths around the 4096-byte chunking fully/partly supplied; scripts of 1 MiB and 1.5 MiB fully supplied and one byte short (Go side only); well-formed transactions / lists with many small items really present (9/10-byte outputs, 41/42-byte inputs, 50/52-byte extended inputs, 10-byte and 1-in/1-out transactions: n and 2n items with n = 50..300 on the model too, also cut 6 and 60 bytes short, and n = 2000..20000 Go side only), measured against the linear bound and: twice the items must cost less than three times the memory. Each input is decoded through *bytes.Reader and 19 more readers (results must agree, allocation must obey the same bound, the largest figure goes to the model comparison): iotest.OneByteReader, a 1..7-byte chunk reader, DataErrReader, HalfReader, a reader answering (0,nil) every other call, a reader ending with a non-EOF error, *bytes.Buffer, *strings.Reader, *bufio.Reader (default size; 16 bytes over the chunk reader), io.MultiReader of the two halves, *io.LimitedReader with N = len, len+4097, 2^30, 2^63-1, *io.SectionReader of size len, 2^30, 2^63-1, and a non-standard reader that implements Len/Size/Buffered/ReadByte/UnreadByte/Peek/Discard/WriteTo/Seek/ReadAt truthfully; a LimitedReader with N = len/2 must give what the first half gives; plus NewTxFromStream/NewTxFromBytes for transactions. JSON: documents for *bt.Tx, tx.NodeJSON(), txs.NodeJSON(), output.NodeJSON(), *bt.UTXO, utxo.NodeJSON() with each optional object missing/null/mistyped, bad/odd hex, one- and two-character hex strings, 0x prefixes, null list elements, hostile tx hex. distinct = distinct (entry point, input); non-trivial = binary inputs on which the decoder consumed at least one byte, JSON documents that encoding/json passes on to the library code"
 	c.Finish()
 }
